@@ -10,6 +10,7 @@ class VClock(object):
         self.tick = tick
         self.sleep_hook = None     # called with (duration) -> may run peer actions
         self.sleeps = 0
+        self.virtual = True        # False: pass through to the real clock (real child processes)
 
     def reset(self, tick=None):
         self.now = 1000.0
@@ -20,6 +21,8 @@ class VClock(object):
 
     # --- the part of the `time` module API the library uses ---
     def time(self):
+        if not self.virtual:
+            return _real_time.time()
         self.now += self.tick
         return self.now
 
@@ -27,6 +30,8 @@ class VClock(object):
         return self.time()
 
     def sleep(self, x):
+        if not self.virtual:
+            return _real_time.sleep(x)
         self.sleeps += 1
         if self.sleep_hook is not None:
             self.sleep_hook(x)
